@@ -23,21 +23,25 @@ class Prop:
                   "readable or the quitter is between store and wakeup(); the next test of the flag (loop entry or end of the "
                   "current iteration) leaves the loop; after a quit() on the loop thread the loop never polls again; no step of "
                   "~EventLoopThread touches a destroyed loop (it holds mutex_, loop_ is published and the object exists; at most "
-                  "one thread in that window); when startLoop() returns loop_ is published, the object exists and belongs to the "
-                  "other thread; every all-blocked state is classified: all threads finished, or the loop idles in poll with no "
-                  "quit outstanding, or one of two named misuses (quit before startLoop returned; destruction before startLoop "
-                  "returned); hence a destructor in join() after a quit() and a startLoop() before any quit() are never "
-                  "all-blocked. Pool: the i-th getNextLoop() is loop i % N (base loop for N = 0), any N consecutive calls are "
+                  "one thread in that window); startLoop() returns either a loop that is published, exists and belongs to the other "
+                  "thread, or NULL — and NULL only when the loop thread has already left loop() and destroyed its loop (somebody "
+                  "quit it before startLoop() looked); every all-blocked state is classified: all threads finished, or the loop "
+                  "idles in poll with no quit outstanding, or the one named misuse (destruction before startLoop returned); hence "
+                  "a destructor in join() after a quit() and any thread inside startLoop() — whoever quits the loop and whenever — "
+                  "are never all-blocked; under the single-owner discipline every all-blocked state is a clean end "
+                  "(clean_shutdown). Pool: the i-th getNextLoop() is loop i % N (base loop for N = 0), any N consecutive calls are "
                   "distinct and cover the pool, getLoopForHash(h) = loop h % N independent of the cursor, getAllLoops = the "
                   "loops in creation order or the base loop. Guards and code shape re-extracted from /repo on every run")
     level_note = ("Trusted: Lean kernel (axioms propext, Classical.choice, Quot.sound only), vlib/extract.py + vlib/gen/loop.py "
                   "+ vlib/gen/pool.py, the hand-written steps of Model/Loop.lean and Model/Pool.lean as far as the differential "
                   "runs exercise them, the deterministic scheduler and the harnesses, AddressSanitizer, pthreads as documented. "
-                  "Outside the property (named disjuncts of stuck_states): user code that quits an EventLoopThread's loop before "
-                  "startLoop() has returned (startLoop() then waits forever: `while (loop_ == NULL)` cannot tell `not yet` from "
-                  "`already gone`), and destroying an EventLoopThread concurrently with its startLoop().")
+                  "Outside the property (named disjunct EarlyDestroy of stuck_states): destroying an EventLoopThread concurrently "
+                  "with its own startLoop(). A loop that is quit before startLoop() has seen it is inside the property since the "
+                  "finished_ handshake: startLoop() returns NULL instead of waiting forever.")
     rule = ("loop engine: the programs and schedules of C04 with half of the cases EventLoopThread programs (startLoop, "
-            "submissions, optionally a pipe byte whose handler quits the loop, destroy), directed sweeps placing quit() / the "
+            "submissions, optionally a pipe byte whose handler quits the loop, destroy; 15 % of them quit the loop from the "
+            "thread-init callback or from a functor/handler it set going, so that startLoop() races with a loop that comes and "
+            "goes), directed sweeps placing quit() / the "
             "destructor after every number of steps of the loop thread (loop entry, poll, dispatch, drain; thread start-up, "
             "publication, loop entry) and the loop's own quit against the destructor; the EventLoopThread families again under "
             "ASan with detect_stack_use_after_return=1; thorough: every schedule of five small programs within 2..3 "
@@ -56,9 +60,9 @@ class Prop:
     ]
     assumptions = [
         "loop() is called once per EventLoop; task bodies terminate",
-        "one owner thread calls startLoop() and later destroys the EventLoopThread (not concurrently); user code does not quit "
-        "the loop of an EventLoopThread before startLoop() has returned (both excluded cases are explicit disjuncts of "
-        "stuck_states, not silently assumed)",
+        "one owner thread calls startLoop() and later destroys the EventLoopThread, not concurrently (the excluded case is the "
+        "explicit disjunct EarlyDestroy of stuck_states, not silently assumed); clean_shutdown additionally assumes that user "
+        "code does not quit the thread's loop (otherwise the owner's pointer may dangle — the caller's responsibility)",
         "a user thread that submits to a loop which quits by itself may touch a destroyed loop (caller's responsibility; the "
         "property speaks about the destructor): generated programs avoid it",
         "pool: start() is called once with 0 <= N <= 64 threads in the differential runs (the theorems hold for every N)",
